@@ -26,8 +26,18 @@ class Obj:
         self.__dict__.update(attrs)
 
     def __repr__(self):
-        inner = ", ".join(f"{k}={v!r}" for k, v in self.__dict__.items() if k != "_cls")
+        inner = ", ".join(f"{k}={v!r}" for k, v in self.__dict__.items() if k != "_cls" and not k.startswith("_"))
         return f"<{self._cls} {inner}>"
+
+    def __call__(self, *a, **k):
+        c = self.__dict__.get("_call")
+        if c is not None:
+            return c(*a, **k)
+        tp = self.__dict__.get("_type")
+        if isinstance(tp, Obj) and "__call__" in (tp.__dict__.get("_methods") or {}):
+            ip = tp.__dict__["_interp"]
+            return ip.call_function(tp.__dict__["_methods"]["__call__"], (self,) + a, k, tp.__dict__.get("_closure") or {})
+        raise TypeError(f"{self._cls} object is not callable")
 
 
 class Raised(Exception):
@@ -70,6 +80,7 @@ SAFE_BUILTINS: Dict[str, Any] = {
     "zip": lambda *a: list(zip(*a)), "range": range, "any": any, "all": all, "max": max, "min": min, "abs": abs, "sum": sum,
     "callable": callable, "id": id, "True": True, "False": False, "None": None, "Ellipsis": Ellipsis,
     "object": lambda: Obj("object"), "type": type, "float": float, "bytes": bytes,
+    "partial": __import__("functools").partial, "functools": __import__("types").SimpleNamespace(partial=__import__("functools").partial),
 }
 SAFE_METHOD_OWNERS = (dict, list, set, frozenset, tuple, str)
 
@@ -551,7 +562,7 @@ class Interp:
         calling it makes an instance and runs the interpreted __init__; methods, properties and class-level constants are
         found through the instance"""
         cls_obj = Obj(f"class {name}", _is_class=True, _type=type, __name__=name, _methods=dict(methods), _class_assigns=dict(assigns),
-                      _closure=closure_env, _mro=())
+                      _closure=closure_env, _mro=(), _interp=self)
 
         def construct(*a, **k):
             inst = Obj(name, _type=cls_obj, _mro=())
@@ -582,7 +593,10 @@ class Interp:
             return True, (lambda *a, **k: self.call_function(node, (owner,) + a, k, env))
         consts = cls_obj.__dict__.get("_class_assigns") or {}
         if attr in consts:
-            return True, self.ev(consts[attr], dict(env))
+            # a class-level attribute is one object shared by the class and its instances: evaluated once
+            v = self.ev(consts[attr], dict(env))
+            cls_obj.__dict__[attr] = v
+            return True, v
         return False, None
 
     def getattr(self, base, attr, node=None):
@@ -593,6 +607,8 @@ class Interp:
                 return base.__dict__.get("_type") or base._cls
             tp = base.__dict__.get("_type")
             if isinstance(tp, Obj) and "_methods" in tp.__dict__:
+                if attr in tp.__dict__ and not attr.startswith("_"):
+                    return tp.__dict__[attr]
                 found, v = self._class_member(base, tp, attr)
                 if found:
                     return v
@@ -635,6 +651,11 @@ class Interp:
                 return self.isinstance_(args[0], args[1])
             if nm == "issubclass":
                 return self.issubclass_(args[0], args[1])
+            if nm == "callable" and len(args) == 1 and isinstance(args[0], Obj):
+                o = args[0]
+                tp = o.__dict__.get("_type")
+                return "_call" in o.__dict__ or bool(o.__dict__.get("_is_class")) or (
+                    isinstance(tp, Obj) and "__call__" in (tp.__dict__.get("_methods") or {}))
             if nm == "hasattr":
                 if isinstance(args[0], (Obj, Closure)):
                     return args[1] in args[0].__dict__
@@ -678,6 +699,11 @@ class Interp:
             return Raised(fn, args)           # exception constructor
         if isinstance(fn, Obj) and "_call" in fn.__dict__:
             fn = fn.__dict__["_call"]        # a modelled callable object (a metaclass, a factory)
+        elif isinstance(fn, Obj) and isinstance(fn.__dict__.get("_type"), Obj) \
+                and "__call__" in (fn.__dict__["_type"].__dict__.get("_methods") or {}):
+            pass                             # an instance of an interpreted class with __call__ (Obj.__call__)
+        elif isinstance(fn, Obj):
+            raise Raised("TypeError", (f"{fn._cls} object is not callable",))
         if callable(fn):
             try:
                 return fn(*args, **kwargs)
